@@ -442,3 +442,51 @@ pub fn malformed_library<S: Src>(s: &mut S) {
         }
     }
 }
+
+// ---------------------------------------------------------------------------------------------------------------
+// C04: the bulk (memory-copy) paths of every container kind are unobservable.
+
+/// For element type T (packed or not): Vec<T>, &[T] (via Box<[T]> / Arc<[T]>), [T;2] and ArrayVec<T,4> produce
+/// exactly length-prefix ++ element-wise reference encodings (arrays: no prefix), the same bytes as the always
+/// field-by-field VecDeque<T>, and load back element-wise equal, consuming everything.
+pub fn bulk_containers<T: Fam, S: Src>(s: &mut S) {
+    use crate::refenc::RefEnc;
+    use savefile::{Deserializer, Serializer};
+    let a = T::sym(s);
+    let b = T::sym(s);
+    let ver = T::VERSION;
+    let mut elems: Vec<u8> = Vec::new();
+    a.renc(ver, &mut elems);
+    b.renc(ver, &mut elems);
+    let mut with_len: Vec<u8> = 2u64.to_le_bytes().to_vec();
+    with_len.extend_from_slice(&elems);
+    fn ser<X: Serialize>(x: &X, ver: u32) -> Vec<u8> { let mut o = Vec::new(); assert!(Serializer::bare_serialize(&mut o, ver, x).is_ok()); o }
+    fn de<X: Deserialize>(bytes: &[u8], ver: u32) -> X {
+        let mut rd: &[u8] = bytes;
+        match Deserializer::bare_deserialize::<X>(&mut rd, ver) { Ok(x) => { assert!(rd.is_empty(), "C01: exact consumption"); x } Err(e) => panic!("C04: loading saved bytes must succeed: {:?}", e) }
+    }
+    let eq2 = |x: &T, y: &T| same(x, &a, ver) && same(y, &b, ver);
+    let v = vec![a.clone(), b.clone()];
+    assert!(ser(&v, ver) == with_len, "C04: Vec<{}> bytes == length ++ element-wise encodings", T::NAME);
+    let back: Vec<T> = de(&with_len, ver);
+    assert!(back.len() == 2 && eq2(&back[0], &back[1]), "C04: Vec<{}> loads element-wise equal", T::NAME);
+    let dq: std::collections::VecDeque<T> = v.iter().cloned().collect();
+    assert!(ser(&dq, ver) == with_len, "C04: the field-by-field VecDeque<{}> gives the same bytes", T::NAME);
+    let bx: Box<[T]> = v.clone().into_boxed_slice();
+    assert!(ser(&bx, ver) == with_len, "C04: Box<[{}]> bytes", T::NAME);
+    let back: Box<[T]> = de(&with_len, ver);
+    assert!(back.len() == 2 && eq2(&back[0], &back[1]), "C04: Box<[{}]> loads element-wise equal", T::NAME);
+    let arc: std::sync::Arc<[T]> = v.clone().into();
+    assert!(ser(&arc, ver) == with_len, "C04: Arc<[{}]> bytes", T::NAME);
+    let back: std::sync::Arc<[T]> = de(&with_len, ver);
+    assert!(back.len() == 2 && eq2(&back[0], &back[1]), "C04: Arc<[{}]> loads element-wise equal", T::NAME);
+    let arr: [T; 2] = [a.clone(), b.clone()];
+    assert!(ser(&arr, ver) == elems, "C04: [{};2] bytes == element-wise encodings", T::NAME);
+    let back: [T; 2] = de(&elems, ver);
+    assert!(eq2(&back[0], &back[1]), "C04: [{};2] loads element-wise equal", T::NAME);
+    let mut av = arrayvec::ArrayVec::<T, 4>::new();
+    av.push(a.clone()); av.push(b.clone());
+    assert!(ser(&av, ver) == with_len, "C04: ArrayVec<{},4> bytes", T::NAME);
+    let back: arrayvec::ArrayVec<T, 4> = de(&with_len, ver);
+    assert!(back.len() == 2 && eq2(&back[0], &back[1]), "C04: ArrayVec<{},4> loads element-wise equal", T::NAME);
+}
